@@ -3,6 +3,7 @@
    these theorems do not change when the repository is repaired (the generated tables do). *)
 From Coq Require Import ZArith NArith List Bool.
 From OG Require Import C12.Model.
+From OG Require C12.Gen_Tokens C12.Inst.
 Import ListNotations.
 Open Scope N_scope.
 
@@ -92,3 +93,13 @@ Theorem C12_regex_newline_refuted :
   regex_delim (regex_escape [97; 10; 98] ++ [47]) [] = None /\ regex_raw ([97; 10; 98] ++ [47]) true [] = Some ([97; 10; 98], []).
 Proof. split; vm_compute; reflexivity. Qed.
 Print Assumptions C12_regex_newline_refuted.
+
+(* a string literal with a carriage return or a NUL (a bound parameter or a PromQL label matcher can hold one; the
+   statement text itself cannot: the reader turns CR into LF and stops at NUL): QuoteString writes the character raw, the
+   store's reader turns CR into LF / ends at NUL and ScanString reports a bad string: the shipped condition does not parse.
+   These are exactly the characters the lexing theorem excludes (wf_str). *)
+Theorem C12_string_cr_nul_refuted : forall c, c = 13 \/ c = 0 ->
+  let e := EBin OEq (EVar [104] DUnknown) (EStr [97; c; 98]) in
+  Inst.parse (Inst.scan (Inst.print_text_v true true e)) <> Some e.
+Proof. intros c [H|H]; subst c; vm_compute; discriminate. Qed.
+Print Assumptions C12_string_cr_nul_refuted.
